@@ -89,25 +89,25 @@ theorem instantiate_not_written {d : Doc} {p : Ticket} {cv : UVal} {r : Bool} {t
 /-- the value `u` below the object `p` survives capture followed by re-instantiation: every identity the
     re-instantiation writes has the visible normal form and liveness it has in `d`; `p` is not inside the
     value; and `p` is not orphaned while `u` is tombstoned.  Decidable on concrete heaps. -/
-def copyStableB (d : Doc) (tw : Ticket → Bool) (p u : Ticket) : Bool :=
+def copyStableB (d : Doc) (p u : Ticket) : Bool :=
   match capture d u with
   | none => false
   | some cv =>
     !(writtenList cv).contains p &&
     (writtenList cv).all (fun t => (d t).isSome &&
       decide (vis (instantiate d p cv false) t = vis d t) && (live (instantiate d p cv false) t == live d t)) &&
-    !orphaned (kill d (some u)) tw orphanFuel p
+    !orphaned (kill d (some u)) noTw orphanFuel p
 
-structure CopyStable (d : Doc) (tw : Ticket → Bool) (p u : Ticket) (cv : UVal) : Prop where
+structure CopyStable (d : Doc) (p u : Ticket) (cv : UVal) : Prop where
   hcap : capture d u = some cv
   hpW : written cv p = false
   hex : ∀ t, written cv t = true → (d t).isSome = true
   hst : ∀ t, written cv t = true →
     vis (instantiate d p cv false) t = vis d t ∧ live (instantiate d p cv false) t = live d t
-  horph : orphaned (kill d (some u)) tw orphanFuel p = false
+  horph : orphaned (kill d (some u)) noTw orphanFuel p = false
 
-theorem copyStableB_spec {d : Doc} {tw : Ticket → Bool} {p u : Ticket} (h : copyStableB d tw p u = true) :
-    ∃ cv, CopyStable d tw p u cv := by
+theorem copyStableB_spec {d : Doc} {p u : Ticket} (h : copyStableB d p u = true) :
+    ∃ cv, CopyStable d p u cv := by
   unfold copyStableB at h
   cases hc : capture d u with
   | none => simp [hc] at h
@@ -140,10 +140,10 @@ theorem capture_id {d : Doc} {u : Ticket} {cv : UVal} (h : capture d u = some cv
 /-! ### the restored heap prints like the original -/
 
 section restore
-variable {d d2 : Doc} {tw : Ticket → Bool} {p u : Ticket} {cv : UVal} {pe : Elem} {keys : List String}
+variable {d d2 : Doc} {p u : Ticket} {cv : UVal} {pe : Elem} {keys : List String}
   {member member2 : String → Option Member}
 
-theorem restore_vis (cs : CopyStable d tw p u cv) (hd : d p = some pe) (hb : pe.body = .obj keys member)
+theorem restore_vis (cs : CopyStable d p u cv) (hd : d p = some pe) (hb : pe.body = .obj keys member)
     (ha : ∀ t, written cv t = true → d2 t = instantiate d p cv false t)
     (hp2 : d2 p = some { pe with body := .obj keys member2 })
     (hm2 : ∀ k', (member2 k').map (·.child) = (member k').map (·.child))
@@ -265,7 +265,7 @@ theorem uexecute_restore {d1 : Doc} {tw : Ticket → Bool} {p : Ticket} {k : Str
 
 theorem undo_do_set_overwrite_container_core {h : Hist} (fr : Fresh h) {p u : Ticket} {k : String} {v : Val}
     (hp : isObj h.doc p = true) (hv : leafBody v.body = true) (hk : winner h.doc p k = some u)
-    {cv : UVal} (cs : CopyStable h.doc h.tw p u cv) (fuel : Nat) :
+    {cv : UVal} (cs : CopyStable h.doc p u cv) (fuel : Nat) :
     marshal (undo (doChange h [.set p k (UVal.ofVal v h.next) h.next])).doc fuel rootId =
       marshal h.doc fuel rootId := by
   obtain ⟨H, w⟩ := fr.wf
@@ -296,7 +296,7 @@ theorem undo_do_set_overwrite_container_core {h : Hist} (fr : Fresh h) {p u : Ti
   have hrev : reverseSet h.doc p k (UVal.ofVal v h.next) h.next = some (.set p k cv h.next) := by
     unfold reverseSet
     simp only [hd, hb, hk, cs.hcap]
-  have he1 : uexecute h.doc h.tw .loc (.set p k (UVal.ofVal v h.next) h.next) =
+  have he1 : uexecute h.doc noTw .loc (.set p k (UVal.ofVal v h.next) h.next) =
       .ok (((kill h.doc (some u)).set h.next ⟨some p, false, v.body⟩).set p
         { pe with body := .obj keys (fun k' => if k' = k then some ⟨h.next, h.next⟩ else member k') },
         some (.set p k cv h.next)) := by
@@ -316,7 +316,7 @@ theorem undo_do_set_overwrite_container_core {h : Hist} (fr : Fresh h) {p u : Ti
   -- the undo
   generalize ht2 : (⟨h.lamport + 1 + 1, 1, h.actor⟩ : Ticket) = ts2
   have hafter : ts2.after h.next = true := after_of_lamport (by rw [← ht2]; simp only [Hist.next]; omega)
-  have horph1 : orphaned d1 h.tw orphanFuel p = false := by
+  have horph1 : orphaned d1 noTw orphanFuel p = false := by
     have hagree : ∀ t e, kill h.doc (some u) t = some e →
         ∃ e1, d1 t = some e1 ∧ e1.removed = e.removed ∧ e1.parent = e.parent := by
       intro t e hte
@@ -335,7 +335,7 @@ theorem undo_do_set_overwrite_container_core {h : Hist} (fr : Fresh h) {p u : Ti
     have hcont : (kill h.doc (some u) p).isSome = true := by rw [kill_isSome, hd]; rfl
     rw [orphaned_ext (WF_kill w (some u)) hagree orphanFuel p hcont]
     exact cs.horph
-  obtain ⟨q, he2⟩ := uexecute_restore (tw := h.tw) (k := k) (cv := cv) (ts2 := ts2) (m := ⟨h.next, h.next⟩)
+  obtain ⟨q, he2⟩ := uexecute_restore (tw := noTw) (k := k) (cv := cv) (ts2 := ts2) (m := ⟨h.next, h.next⟩)
     hd1p rfl (by simp) hafter horph1
   generalize hd2 : (instantiate (markRemoved d1 h.next ts2) p cv cv.removed).set p _ = d2 at he2
   rw [undo_doc_of_push (r := .set p k cv h.next) rfl (by rfl)
@@ -374,7 +374,7 @@ theorem undo_do_set_overwrite_container_core {h : Hist} (fr : Fresh h) {p u : Ti
 
 theorem undo_do_delete_container_core {h : Hist} (fr : Fresh h) {p u : Ticket} {k : String}
     (hp : isObj h.doc p = true) (hk : winner h.doc p k = some u)
-    {cv : UVal} (cs : CopyStable h.doc h.tw p u cv) (fuel : Nat) :
+    {cv : UVal} (cs : CopyStable h.doc p u cv) (fuel : Nat) :
     marshal (undo (doChange h [.remove p u h.next])).doc fuel rootId = marshal h.doc fuel rootId := by
   obtain ⟨H, w⟩ := fr.wf
   have bd := fr.bd
@@ -398,7 +398,7 @@ theorem undo_do_delete_container_core {h : Hist} (fr : Fresh h) {p u : Ticket} {
   have hchild : isChildOf h.doc u p = true := by simp [isChildOf, hue, hupar]
   have hk1 : markRemoved h.doc u h.next = kill h.doc (some u) :=
     markRemoved_eq_kill (fun e he => after_of_lamport (by have := bd.ent _ _ he; simp only [Hist.next]; omega))
-  have he1 : uexecute h.doc h.tw .loc (.remove p u h.next) =
+  have he1 : uexecute h.doc noTw .loc (.remove p u h.next) =
       .ok (kill h.doc (some u), some (.set p k cv h.next)) := by
     simp only [uexecute, hcont, Bool.not_true, Bool.false_eq_true, if_false, Source.needsReverse, if_true,
       reverseRemove, cs.hcap, hd, hb, hkeyOf, applyRemove, hchild, hk1,
@@ -412,7 +412,7 @@ theorem undo_do_delete_container_core {h : Hist} (fr : Fresh h) {p u : Ticket} {
   generalize ht2 : (⟨h.lamport + 1 + 1, 1, h.actor⟩ : Ticket) = ts2
   have hafter : ts2.after m.positionedAt = true := after_of_lamport (by
     have := bd.pos _ _ _ _ _ _ hd hb hm; rw [← ht2]; simp only []; omega)
-  obtain ⟨q, he2⟩ := uexecute_restore (tw := h.tw) (k := k) (cv := cv) (ts2 := ts2) (m := m) hd1p hb hm hafter
+  obtain ⟨q, he2⟩ := uexecute_restore (tw := noTw) (k := k) (cv := cv) (ts2 := ts2) (m := m) hd1p hb hm hafter
     cs.horph
   generalize hd2 : (instantiate (markRemoved (kill h.doc (some u)) m.child ts2) p cv cv.removed).set p _ = d2 at he2
   rw [undo_doc_of_push (r := .set p k cv h.next) rfl (by rfl)
@@ -444,7 +444,7 @@ theorem undo_do_delete_container_core {h : Hist} (fr : Fresh h) {p u : Ticket} {
 
 theorem undo_do_set_overwrite_container_lemma {h : Hist} (fr : Fresh h) {p u : Ticket} {k : String} {v : Val}
     (hp : isObj h.doc p = true) (hv : leafBody v.body = true) (hk : winner h.doc p k = some u)
-    (hcs : copyStableB h.doc h.tw p u = true) (fuel : Nat) :
+    (hcs : copyStableB h.doc p u = true) (fuel : Nat) :
     marshal (undo (doChange h [.set p k (UVal.ofVal v h.next) h.next])).doc fuel rootId =
       marshal h.doc fuel rootId := by
   obtain ⟨cv, cs⟩ := copyStableB_spec hcs
@@ -452,7 +452,7 @@ theorem undo_do_set_overwrite_container_lemma {h : Hist} (fr : Fresh h) {p u : T
 
 theorem undo_do_delete_container_lemma {h : Hist} (fr : Fresh h) {p u : Ticket} {k : String}
     (hp : isObj h.doc p = true) (hk : winner h.doc p k = some u)
-    (hcs : copyStableB h.doc h.tw p u = true) (fuel : Nat) :
+    (hcs : copyStableB h.doc p u = true) (fuel : Nat) :
     marshal (undo (doChange h [.remove p u h.next])).doc fuel rootId = marshal h.doc fuel rootId := by
   obtain ⟨cv, cs⟩ := copyStableB_spec hcs
   exact undo_do_delete_container_core fr hp hk cs fuel
@@ -567,7 +567,7 @@ theorem bounded_dN : Bounded dN 4 := by
     simp at hc; subst hc; decide
 
 theorem fresh_hN : Fresh hN :=
-  ⟨⟨HN, wf_dN⟩, bounded_dN, (fun _ ht => by cases ht), (by decide)⟩
+  ⟨⟨HN, wf_dN⟩, bounded_dN, (by decide)⟩
 
 end Nested
 
